@@ -18,11 +18,13 @@ func buildCase(id string, rec *R, refs []*R, nodeRefs []int) *Case {
 	}
 	var refErrs []error
 	var refSX []SX
+	var refRecs []*R
 	nodes := nodesOfErr(e, nil)
 	for _, j := range nodeRefs {
 		if j < len(nodes) {
 			refErrs = append(refErrs, nodes[j])
 			refSX = append(refSX, L(Sym("node"), Nat(j)))
+			refRecs = append(refRecs, nil)
 		}
 	}
 	for _, r := range refs {
@@ -32,9 +34,11 @@ func buildCase(id string, rec *R, refs []*R, nodeRefs []int) *Case {
 		}
 		refErrs = append(refErrs, re)
 		refSX = append(refSX, r.ToSX())
+		refRecs = append(refRecs, r)
 	}
 	c.Cmd = L(Sym("case"), rec.ToSX(), L(refSX...))
 	c.Real = obsCase(e, refErrs)
+	c.Err, c.Refs, c.RefRecs = e, refErrs, refRecs
 	return c
 }
 
